@@ -40,10 +40,13 @@ QUOTA = {'quick': 12, 'thorough': 320}
 REQUIRED = {'quick': {'evaluations': 300, 'streams': 150, 'data_messages_compared': 300, 'defined_elements_used': 600,
                       'defined_sequences_used': 150, 'replication_only_sequences_used': 30, 'multi_definition_streams': 40,
                       'redefinitions': 15, 'standard_descriptors_alongside': 200, 'negative_scale_or_reference': 100,
-                      'redefinition_only_messages': 10, 'nested_rep_only_used': 5},
+                      'redefinition_only_messages': 10, 'nested_rep_only_used': 5,
+                      'data_messages_with_bundled_local_tables': 40},
             'thorough': {'evaluations': 8000, 'streams': 4000, 'data_messages_compared': 8000, 'defined_elements_used': 15000,
                          'defined_sequences_used': 4000, 'replication_only_sequences_used': 800, 'multi_definition_streams': 1000,
                          'redefinitions': 400, 'standard_descriptors_alongside': 5000, 'negative_scale_or_reference': 2500}}
+
+LOCALS = [(ce, su, lv) for ce, su, lv, _p in R.local_table_dirs()]
 
 DEF_TEMPLATE = [103000, 31001, 1, 2, 3, 101000, 31001, 300004, 105000, 31001, 300003, 205064, 101000, 31001, 30]
 
@@ -98,7 +101,8 @@ def reorder_counts(a_entries, b_entries, d_entries):
 
 
 def build_definition(rng, B, D, mtv, b_entries, d_entries, edition, k):
-    a_entries = [('%03d' % rng.randint(100, 255), 'VERIF CATEGORY %d' % k, '')]
+    # 0..3 Table A entries (the sample file has exactly one)
+    a_entries = [('%03d' % rng.randint(100, 255), 'VERIF CATEGORY %d/%d' % (k, j), '') for j in range(rng.choice([1, 1, 0, 2, 3]))]
     strings, counts = definition_fields(a_entries, b_entries, d_entries)
     pol = Scripted(rng, strings, counts)
     meta = dict(master_table_version=mtv, data_category=11, update_sequence_number=k % 256)
@@ -262,18 +266,37 @@ def make_stream(ctx, k):
                 if ids and ids[-1] in rep_only:
                     ids.append(rng.choice(elems))
                 comp = rng.random() < 0.35
+                dmeta = dict(master_table_version=rng.choice([mtv, 33]), data_category=rng.choice([0, 2, 102]),
+                             update_sequence_number=len(parts) % 256)
+                Bm, Dm = B, D
+                local = None
+                if LOCALS and rng.random() < 0.3:
+                    # the header selects bundled local tables: the in-stream entries must be in force there too
+                    ce, su, lv = rng.choice(LOCALS)
+                    local = (ce, su, lv)
+                    dmeta.update(originating_centre=ce, originating_subcentre=su, local_table_version=lv)
+                    Bl, Dl = R.load_tables(0, ce, su, dmeta['master_table_version'], lv)
+                    Bm, Dm = dict(Bl), dict(Dl)
+                    Bm.update({e: B[e] for e in elems})
+                    Dm.update({sq: D[sq] for sq in seqs})
+                    if dmeta['master_table_version'] != mtv:
+                        pass
+                elif dmeta['master_table_version'] != mtv:
+                    B2, D2 = cases.tables(dmeta['master_table_version'])
+                    Bm, Dm = dict(B2), dict(D2)
+                    Bm.update({e: B[e] for e in elems})
+                    Dm.update({sq: D[sq] for sq in seqs})
                 try:
-                    msg = R.build_message(ids, B, D, R.Policy(rng), rng.choice([1, 2, 3]), comp, rng.choice([3, 4]),
-                                          dict(master_table_version=rng.choice([mtv, 33]), data_category=rng.choice([0, 2, 102]),
-                                               update_sequence_number=len(parts) % 256),
-                                          inline_sequences=True)
+                    msg = R.build_message(ids, Bm, Dm, R.Policy(rng), rng.choice([1, 2, 3]), comp, rng.choice([3, 4]),
+                                          dmeta, inline_sequences=True)
                 except (R.Unsupported, KeyError):
                     continue
+                msg.local = local
                 if any(me and me[0] == 'n' and me[2] > 0 and me[1] > 48 for s in msg.subsets for me in s.meta):
                     continue
                 # R must agree with itself on these bytes under the extended tables
                 try:
-                    r = R.decode(msg.bytes, extra_B={e: B[e] for e in elems}, extra_D={s: D[s] for s in seqs}, inline_sequences=True)
+                    r = R.decode(msg.bytes, extra_B={e: B[e] for e in elems}, extra_D={sq: D[sq] for sq in seqs}, inline_sequences=True)
                     ok = all(a.labels == list(b.labels) and a.values == b.values for a, b in zip(msg.subsets, r['subsets']))
                 except Exception:
                     ok = False
@@ -357,6 +380,8 @@ def run(ctx):
                 ctx.count('defined_sequences_used', em.uses_seqs)
                 ctx.count('replication_only_sequences_used', em.uses_rep_only)
                 ctx.count('nested_rep_only_used', em.nested_rep_only)
+                if getattr(em, 'local', None):
+                    ctx.count('data_messages_with_bundled_local_tables')
                 ctx.count('standard_descriptors_alongside', em.uses_std)
                 ctx.count('negative_scale_or_reference', em.negatives)
                 ctx.evaluated((stream.hex(), mi), em.uses_elems + em.uses_seqs > 0,
